@@ -1374,7 +1374,9 @@ class Buffer:
         Execute search. Return (working_index, cursor_position) tuple when this
         search is applied. Returns `None` when this text cannot be found.
         """
-        assert count > 0
+        if count < 1:
+            # A zero or negative repeat count (Meta-minus in Emacs mode): no search.
+            return None
 
         text = search_state.text
         direction = search_state.direction
